@@ -363,6 +363,32 @@ impl<T> NCWriteStream<T> {
     }
 }
 
+/// Like [`StreamProbe`], for packet streams: looks at the queue without
+/// being one of the stream's ends.
+#[cfg(feature = "verif")]
+pub struct NCStreamProbe<T>(std::sync::Weak<(Mutex<VecDeque<T>>, Condvar)>);
+
+#[cfg(feature = "verif")]
+impl<T> NCStreamProbe<T> {
+    /// Number of queued packets, if the stream still exists. Only for single
+    /// threaded harnesses: it briefly holds a strong reference.
+    #[must_use]
+    pub fn len(&self) -> Option<usize> {
+        self.0
+            .upgrade()
+            .map(|q| q.0.lock().unwrap_or_else(|e| e.into_inner()).len())
+    }
+}
+
+#[cfg(feature = "verif")]
+impl<T> NCWriteStream<T> {
+    /// Get a probe for this stream.
+    #[must_use]
+    pub fn verif_nc_probe(&self) -> NCStreamProbe<T> {
+        NCStreamProbe(Arc::downgrade(&self.q))
+    }
+}
+
 /// Create a stream as directed by the verification plan.
 ///
 /// The stream can be small, and can have seen traffic already: `offset`
